@@ -276,6 +276,14 @@ def build_parent(stg, c, R, data=None):
         fr.t_start = c['t0'] + 1234.5
         fr.source_name = c['name'] + '_S'
         R.bucket('parent:derived')
+    if route != 'derived' and (c['name'] == '' or c['t0'] == 0.0):
+        # a blank source name / a start at t = 0 (whatever route produced the parent: as attributes they are the parent's)
+        if c['name'] == '':
+            fr.source_name = ''
+            R.bucket('parent:blank-source-name')
+        if c['t0'] == 0.0 and route != 'mjd':
+            fr.t_start = 0.0
+            R.bucket('parent:t_start-zero')
     R.bucket('route:' + route)
     R.bucket('data:' + c['data_kind'])
     return fr
